@@ -52,7 +52,9 @@ def main():
             import numpy
             print("setup ok: python %s numpy %s pyspike from %s; lowered %d .pyx modules (%s)" % (
                 sys.version.split()[0], numpy.__version__, w.repo, len(w.compiled), w.compiled_kind))
-            return 0
+            for e in w.lower_errors:
+                print(e)
+            return 2 if w.lower_errors else 0
         if a.cmd == 'run':
             return runner.check(a.prop, a.tier, seed, jobs=a.jobs, runs=a.runs, budget=a.budget)
         if a.cmd == 'replay':
